@@ -2,6 +2,7 @@
 //! rustls+ring) on tokio's paused clock over `SimNet`. One seed = one execution.
 pub mod app;
 pub mod net;
+pub mod oracles;
 pub mod qlogcap;
 
 use std::{
@@ -101,11 +102,27 @@ pub struct Case {
     pub qlog: QlogMode,
     /// hard cap on virtual time, ms
     pub cap_ms: u32,
+    /// serve the RSA chain (first server flight larger than 3 x 1200 bytes)
+    #[serde(default)]
+    pub big_cert: bool,
 }
 
 #[derive(Clone, Copy, Debug, PartialEq)]
 pub enum Mode {
     C02,
+    C06,
+    C15,
+}
+
+impl Mode {
+    /// oracle clauses judged by the property this mode serves
+    pub fn clauses(&self) -> &'static [&'static str] {
+        match self {
+            Mode::C02 => &["no-panic", "read-implies-written", "eof-only-at-final-size", "write-accounting", "unexpected-conn-error", "liveness-handshake", "liveness-transfer", "bounded-failure", "no-progress", "tampered-not-accepted", "no-duplicate-pn-accepted"],
+            Mode::C06 => &["no-panic", "roundtrip-frames", "corrupt-accepted", "replay-accepted", "liveness-handshake", "liveness-transfer", "unexpected-conn-error"],
+            Mode::C15 => &["no-panic", "over-3x", "resume"],
+        }
+    }
 }
 
 pub struct NetSim {
@@ -305,7 +322,11 @@ pub fn gen_streams(r: &mut Rng, max_streams: u64, max_size: u32) -> Vec<StreamSp
 impl Engine for NetSim {
     type Case = Case;
     fn name(&self) -> &'static str {
-        "netsim"
+        match self.mode {
+            Mode::C02 => "netsim",
+            Mode::C06 => "netsim-sweep",
+            Mode::C15 => "netsim-amplification",
+        }
     }
     fn fresh_thread(&self) -> bool {
         true
@@ -326,7 +347,10 @@ impl Engine for NetSim {
 
     fn generate(&self, _index: u64, seed: u64, _tier: Tier) -> Case {
         let mut r = Rng::derive(seed, "cfg");
-        let profile = if r.one_in(4) { Profile::Unbounded } else { Profile::Bounded };
+        let profile = match self.mode {
+            Mode::C02 => if r.one_in(4) { Profile::Unbounded } else { Profile::Bounded },
+            Mode::C06 | Mode::C15 => Profile::Bounded,
+        };
         let mut w = Rng::derive(seed, "workload");
         let big = w.one_in(4);
         let streams = gen_streams(&mut w, 6, if big { 262_144 } else { 40_000 });
@@ -355,7 +379,36 @@ impl Engine for NetSim {
             jitter_seed: r.next_u64(),
         };
         let mut f = Rng::derive(seed, "faults");
-        let tape = gen_tape(&mut f, profile, false);
+        let mut tape = gen_tape(&mut f, profile, false);
+        let mut big_cert = false;
+        match self.mode {
+            Mode::C02 => {}
+            Mode::C06 => {
+                // 1..3 sweeps on drawn in-flight datagrams: early ordinals hit Initial / Handshake / coalesced
+                // datagrams, later ones 1-RTT packets of whatever pn length the encoder picked
+                for _ in 0..f.range(1, 3) {
+                    let dir = f.usize_below(2);
+                    let ord = if f.one_in(2) { f.below(6) } else { f.below(60) } as u32;
+                    tape.entries[dir].insert(ord, Fault::FlipSweep);
+                }
+                big_cert = f.one_in(3);
+            }
+            Mode::C15 => {
+                // the server must have to retransmit while the client's address is still unvalidated: lose the
+                // client's second flight a drawn number of times, vary what the server has received so far
+                big_cert = !f.one_in(4);
+                let losses = f.range(0, 6) as u32;
+                for o in 1..=losses {
+                    tape.entries[net::C2S].insert(o, if f.one_in(3) { Fault::Truncate { len: f.below(1200) as u16 } } else { Fault::Drop });
+                }
+                if f.one_in(2) {
+                    tape.entries[net::C2S].insert(0, Fault::Dup { copies: f.range(1, 2) as u8, gap_ms: *f.pick(&[0u32, 5, 100]) });
+                }
+                if f.one_in(3) {
+                    tape.entries[net::S2C].insert(f.below(4) as u32, Fault::Drop);
+                }
+            }
+        }
         Case {
             seed,
             profile,
@@ -366,14 +419,20 @@ impl Engine for NetSim {
             streams,
             dgrams: vec![],
             close: CloseKind::AfterWorkload,
-            qlog: QlogMode::Noop,
+            qlog: if self.mode != Mode::C02 || std::env::var("NETSIM_FORCE_CAPTURE").is_ok() { QlogMode::Capture } else { QlogMode::Noop },
             cap_ms: 300_000,
+            big_cert,
         }
     }
 
     fn execute(&self, case: &Case) -> Outcome {
         process_init();
-        run_case(case, self.mode)
+        let mut out = run_case(case, self.mode);
+        let clauses = self.mode.clauses();
+        if std::env::var("NETSIM_ALL_CLAUSES").is_err() {
+            out.violations.retain(|v| clauses.contains(&v.clause.as_str()));
+        }
+        out
     }
 
     fn shrink(&self, case: &Case) -> Vec<Case> {
@@ -398,6 +457,22 @@ impl Engine for NetSim {
                 let mut c = case.clone();
                 c.tape.entries[dir].remove(k);
                 v.push(c);
+            }
+        }
+        // 1b. simpler fault kinds
+        for dir in 0..2 {
+            for (k, f) in case.tape.entries[dir].iter().rev().take(20) {
+                let simpler: Vec<Fault> = match f {
+                    Fault::FlipSweep => (0..16).map(|i| Fault::FlipBit { pos: i * 13 + (i % 8) }).chain([Fault::Truncate { len: 20 }, Fault::Truncate { len: 1 }, Fault::Dup { copies: 1, gap_ms: 1 }, Fault::Drop]).collect(),
+                    Fault::Garbage { .. } | Fault::Truncate { .. } | Fault::FlipBit { .. } => vec![Fault::Drop],
+                    Fault::Dup { copies, gap_ms } if *copies > 1 => vec![Fault::Dup { copies: 1, gap_ms: *gap_ms }],
+                    _ => vec![],
+                };
+                for nf in simpler {
+                    let mut c = case.clone();
+                    c.tape.entries[dir].insert(*k, nf);
+                    v.push(c);
+                }
             }
         }
         // 2. fewer / smaller streams
